@@ -37,17 +37,29 @@ NET = [
       encodes=["Ipv6HeaderSlice::from_slice + all accessors + to_header", "Ipv6Header::from_slice"]),
     H("c01_raw_ext_slice", "c01", unwind=4, bounds="every byte string of length 0..=32",
       encodes=["Ipv6RawExtHeaderSlice::from_slice", "Ipv6FragmentHeaderSlice::from_slice", "Ipv6FragmentHeader::from_slice", "accessors"]),
-    H("c01_ipv6_exts_strict", "c01", unwind=6, bounds="every start ip number x every byte string of length 0..=32 (<= 4 headers)",
+    H("c01_ipv6_exts_strict_16", "c01", unwind=4, timeout=900, bounds="every start ip number x every byte string of length 0..=16 (<= 2 headers)",
       encodes=["Ipv6ExtensionsSlice::from_slice", "Ipv6ExtensionSliceIter::next (to exhaustion)", "accessors of every yielded header"]),
-    H("c01_ipv6_exts_lax", "c01", unwind=6, bounds="every start ip number x every byte string of length 0..=32 (<= 4 headers)",
+    H("c01_ipv6_exts_lax_16", "c01", unwind=4, timeout=900, bounds="every start ip number x every byte string of length 0..=16 (<= 2 headers)",
       encodes=["Ipv6ExtensionsSlice::from_slice_lax", "Ipv6ExtensionSliceIter::next (to exhaustion, also after an early stop)"]),
-    H("c01_ipv6_slice", "c01", unwind=5, timeout=900, bounds="every byte string of length 0..=64, strict and lax constructor",
+    H("c01_ipv6_slice_56", "c01", unwind=4, timeout=900, bounds="every byte string of length 0..=56 (<= 2 extension headers), strict and lax constructor",
       encodes=["Ipv6Slice::from_slice", "Ipv6Slice::from_slice_lax", "extension iterator", "all accessors"]),
-    H("c01_lax_ipv6_slice", "c01", unwind=5, timeout=900, bounds="every byte string of length 0..=64",
+    H("c01_lax_ipv6_slice_56", "c01", unwind=4, timeout=900, bounds="every byte string of length 0..=56",
       encodes=["LaxIpv6Slice::from_slice", "extension iterator", "all accessors"]),
-    H("c01_ip_slice", "c01", unwind=5, timeout=900, bounds="every byte string of length 0..=64",
+    H("c01_ip_slice_56", "c01", unwind=4, timeout=900, bounds="every byte string of length 0..=56",
       encodes=["IpSlice::from_slice", "all accessors", "IpSlice::header"]),
-    H("c01_lax_ip_slice", "c01", unwind=5, timeout=900, bounds="every byte string of length 0..=64",
+    H("c01_lax_ip_slice_56", "c01", unwind=4, timeout=900, bounds="every byte string of length 0..=56",
+      encodes=["LaxIpSlice::from_slice", "all accessors"]),
+    H("c01_ipv6_exts_strict_24", "c01", tier="thorough", unwind=5, timeout=3000, bounds="every start ip number x every byte string of length 0..=24 (<= 3 headers)",
+      encodes=["Ipv6ExtensionsSlice::from_slice", "Ipv6ExtensionSliceIter::next (to exhaustion)"]),
+    H("c01_ipv6_exts_lax_24", "c01", tier="thorough", unwind=5, timeout=3000, bounds="every start ip number x every byte string of length 0..=24 (<= 3 headers)",
+      encodes=["Ipv6ExtensionsSlice::from_slice_lax", "Ipv6ExtensionSliceIter::next (to exhaustion, also after an early stop)"]),
+    H("c01_ipv6_slice_64", "c01", tier="thorough", unwind=5, timeout=3600, bounds="every byte string of length 0..=64 (<= 3 extension headers), strict and lax constructor",
+      encodes=["Ipv6Slice::from_slice", "Ipv6Slice::from_slice_lax", "extension iterator", "all accessors"]),
+    H("c01_lax_ipv6_slice_64", "c01", tier="thorough", unwind=5, timeout=3600, bounds="every byte string of length 0..=64",
+      encodes=["LaxIpv6Slice::from_slice", "extension iterator", "all accessors"]),
+    H("c01_ip_slice_64", "c01", tier="thorough", unwind=5, timeout=3600, bounds="every byte string of length 0..=64",
+      encodes=["IpSlice::from_slice", "all accessors", "IpSlice::header"]),
+    H("c01_lax_ip_slice_64", "c01", tier="thorough", unwind=5, timeout=3600, bounds="every byte string of length 0..=64",
       encodes=["LaxIpSlice::from_slice", "all accessors"]),
 ]
 
